@@ -509,6 +509,21 @@ def apply_sub_wild(toks, sub, hits):
                 if cur >= len(toks) or hay[cur] != v:
                     return None
                 cur += 1
+            elif v in ('$B', '$C', '$D'):
+                # a block wildcard: everything up to the brace that closes the block the pattern is standing in (may be nothing)
+                e = cur
+                depth = 0
+                while e < len(toks):
+                    tx = toks[e].text
+                    if toks[e].kind == 'punct' and tx in '([{':
+                        depth += 1
+                    elif toks[e].kind == 'punct' and tx in ')]}':
+                        if depth == 0:
+                            break
+                        depth -= 1
+                    e += 1
+                caps[v] = toks[cur:e]
+                cur = e
             else:
                 e = expr_end(toks, cur)
                 if e == cur:
